@@ -14,6 +14,7 @@ Not decided: the geometric content of the generated supercells.  Decided:
   * the keys of the returned dictionary are those the automation module reads; `indices` records tagdict (and type).
 """
 import ast
+from ..model import ast_copy as _ast_copy
 
 from ..model import AnalysisError, dotted, unparse, walk_local
 from ..engines import pattern, owner
@@ -48,7 +49,7 @@ def _unalias_fields(fn, name='superdict'):
                 alias[v.id] = k.value
     if not alias:
         return fn
-    new = copy.deepcopy(fn)
+    new = _ast_copy(fn)
 
     class R(ast.NodeTransformer):
         def visit_Name(self, n):
